@@ -1,7 +1,8 @@
 /-
 Spec side of C01: a reader for the canonical token language of the built-in literal types.  It is the fragment of Python's
 expression grammar the printers use — literals, `[..]`, `(..)` with the one-element comma rule, `{..}` as set or dict,
-`set()`, `frozenset()`, `frozenset([..])`, `float('inf')`, and calls `name(arg, ..., key=value, ...)` — over the code tokens of `Spec/Tokens.lean`; optional trailing
+`set()`, `frozenset()`, `frozenset([..])`, `float('inf')`, calls `name(arg, ..., key=value, ...)` and names used as values (`int`,
+`datetime.timezone.utc`, `Color` `.RED`) — over the code tokens of `Spec/Tokens.lean`; optional trailing
 commas are accepted as Python accepts them.
 -/
 import PP.Spec.Tokens
@@ -21,6 +22,7 @@ inductive RVal where
   | dict (kvs : List (RVal × RVal))
   | call (name : Str) (items : List RVal)   -- `name(item, ...)`: positional items and `kwarg` items in the order written
   | kwarg (name : Str) (v : RVal)           -- `name = value` inside a call
+  | name (s : Str)                          -- a name used as a value: `int`, `datetime.timezone.utc`, `Color.RED` (dots included)
 deriving Repr, Inhabited
 
 def sNone : Str := [78, 111, 110, 101]
@@ -45,13 +47,23 @@ def asCall (name : Str) (p : Option (List RVal × Bool × List CT)) : Option (RV
 def asKw (name : Str) (p : Option (RVal × List CT)) : Option (RVal × List CT) :=
   match p with | some (v, r') => some (.kwarg name v, r') | none => none
 
-/-- after a name: `= value` (a keyword item of a call) | `( items )` (a call) -/
+/-- an attribute access written as a fragment of its own: `.NAME` (the printers write an Enum member as `Class` `.MEMBER`) -/
+def isAttrTok (s : Str) : Bool :=
+  match s with | 46 :: c :: _ => (65 ≤ c && c ≤ 90) || (97 ≤ c && c ≤ 122) || c == 95 | _ => false
+
+/-- a name that is neither called nor bound: the value of that name, with one attribute fragment if one follows -/
+def bareName (s : Str) (r : List CT) : Option (RVal × List CT) :=
+  match r with
+  | .code a :: r' => if isAttrTok a then some (.name (s ++ a), r') else some (.name s, r)
+  | _ => some (.name s, r)
+
+/-- after a name: `= value` (a keyword item of a call) | `( items )` (a call) | anything else: the name is the value -/
 def afterName (s : Str) (r : List CT) (pv : List CT → Option (RVal × List CT))
     (pt : List CT → Option (List RVal × Bool × List CT)) : Option (RVal × List CT) :=
   match r with
   | .code [61] :: r' => asKw s (pv r')
   | .code [40] :: r' => asCall s (pt r')
-  | _ => none
+  | _ => bareName s r
 
 /-- an element followed by the rest of its sequence -/
 def thenTail (p : Option (RVal × List CT)) (k : List CT → Option (List RVal × Bool × List CT)) :
@@ -82,6 +94,10 @@ def orElseR (a b : Option (RVal × List CT)) : Option (RVal × List CT) :=
 /-- `float('inf')` and friends -/
 def floatSpecial (r : List CT) : Option (RVal × List CT) :=
   match r with | .code [40] :: .lit (some n) :: .code [41] :: r' => some (.fspecial n, r') | _ => none
+
+/-- `b'...'` after its prefix -/
+def bytesLit (r : List CT) : Option (RVal × List CT) :=
+  match r with | .lit (some b) :: r' => some (.str true b, r') | _ => none
 
 /-- `set()` -/
 def setEmpty (r : List CT) : Option (RVal × List CT) :=
@@ -127,7 +143,8 @@ def parseV : Nat → List CT → Option (RVal × List CT)
     match toks with
     | .lit (some s) :: r => some (.str false s, r)
     | .code s :: r =>
-      if s == [98] then (match r with | .lit (some b) :: r' => some (.str true b, r') | _ => none)
+      -- `b` before a literal is the bytes prefix; anywhere else it is a name like any other
+      if s == [98] then orElseR (bytesLit r) (afterName s r (fun t => parseV f t) (fun t => parseTailStart f [41] t))
       else if s == [91] then asList (parseTailStart f [93] r)
       else if s == [40] then
         asTuple (parseTailStart f [41] r)
